@@ -11,9 +11,11 @@ namespace Tg
 namespace C04L
 open Grammar Doc Frag
 
-/-- a documented sentence that the parser does not accept without syntax errors -/
+/-- a documented sentence, with nothing left in the token source at the end of the text (no
+unterminated conditional), that the parser does not accept without syntax errors -/
 def ForwardFailure (input : List Char) : Prop :=
-  Doc.Sentence (PState.init input).kinds ∧ ¬ ∃ r, parse input = .ok r ∧ r.errors = []
+  Doc.Sentence (PState.init input).kinds ∧ Src.endMessage input = none ∧
+    ¬ ∃ r, parse input = .ok r ∧ r.errors = []
 
 theorem rejected_of {input : List Char}
     (h : (match parse input with | .ok r => r.errors.isEmpty | _ => false) = false) :
@@ -33,7 +35,7 @@ theorem d_program {w : List TokenKind} (h : Derives (.nt .Statement_) w) : Doc.S
 def ffForeachBin : List Char := ['f', 'o', 'r', 'e', 'a', 'c', 'h', ' ', 'i', ' ', '=', ' ', '0', 'b', '0', '1', '.', '.', '.', '0', 'b', '1', '1', ' ', 'i', 'n', ' ', 'd', 'e', 'f', ' ', 'x', ';']
 
 theorem ffForeachBin_fails : ForwardFailure ffForeachBin := by
-  refine ⟨?_, rejected_of (by decide +kernel)⟩
+  refine ⟨?_, by decide +kernel, rejected_of (by decide +kernel)⟩
   have hk : (PState.init ffForeachBin).kinds =
       [.Foreach, .Id, .Equal, .BinaryIntVal, .DotDotDot, .BinaryIntVal, .In, .Def, .Id, .Semi] := by decide +kernel
   rw [hk]
@@ -51,7 +53,7 @@ theorem ffForeachBin_fails : ForwardFailure ffForeachBin := by
 def ffDefBits : List Char := ['d', 'e', 'f', ' ', '{', '0', ',', ' ', '1', '}', ';']
 
 theorem ffDefBits_fails : ForwardFailure ffDefBits := by
-  refine ⟨?_, rejected_of (by decide +kernel)⟩
+  refine ⟨?_, by decide +kernel, rejected_of (by decide +kernel)⟩
   have hk : (PState.init ffDefBits).kinds = [.Def, .LBrace, .IntVal, .Comma, .IntVal, .RBrace, .Semi] := by decide +kernel
   rw [hk]
   apply d_program
@@ -70,7 +72,7 @@ theorem ffDefBits_fails : ForwardFailure ffDefBits := by
 def ffDefRange : List Char := ['d', 'e', 'f', ' ', 'x', '{', '1', '}', ';']
 
 theorem ffDefRange_fails : ForwardFailure ffDefRange := by
-  refine ⟨?_, rejected_of (by decide +kernel)⟩
+  refine ⟨?_, by decide +kernel, rejected_of (by decide +kernel)⟩
   have hk : (PState.init ffDefRange).kinds = [.Def, .Id, .LBrace, .IntVal, .RBrace, .Semi] := by decide +kernel
   rw [hk]
   apply d_program
@@ -89,7 +91,7 @@ theorem ffDefRange_fails : ForwardFailure ffDefRange := by
 def ffArgOrder : List Char := ['d', 'e', 'f', ' ', 'd', ' ', ':', ' ', 'A', '<', 'x', ' ', '=', ' ', '2', ',', ' ', '3', '>', ';']
 
 theorem ffArgOrder_fails : ForwardFailure ffArgOrder := by
-  refine ⟨?_, rejected_of (by decide +kernel)⟩
+  refine ⟨?_, by decide +kernel, rejected_of (by decide +kernel)⟩
   have hk : (PState.init ffArgOrder).kinds =
       [.Def, .Id, .Colon, .Id, .Less, .Id, .Equal, .IntVal, .Comma, .IntVal, .Greater, .Semi] := by decide +kernel
   rw [hk]
@@ -111,7 +113,7 @@ theorem ffArgOrder_fails : ForwardFailure ffArgOrder := by
 def ffSliceBin : List Char := ['d', 'e', 'f', 'v', 'a', 'r', ' ', 'a', ' ', '=', ' ', 'b', '[', 'c', ' ', '0', 'b', '1', ']', ';']
 
 theorem ffSliceBin_fails : ForwardFailure ffSliceBin := by
-  refine ⟨?_, rejected_of (by decide +kernel)⟩
+  refine ⟨?_, by decide +kernel, rejected_of (by decide +kernel)⟩
   have hk : (PState.init ffSliceBin).kinds =
       [.Defvar, .Id, .Equal, .Id, .LSquare, .Id, .BinaryIntVal, .RSquare, .Semi] := by decide +kernel
   rw [hk]
@@ -136,7 +138,7 @@ theorem ffSliceBin_fails : ForwardFailure ffSliceBin := by
 theorem forward_failures :
     ForwardFailure dagWitness ∧ ForwardFailure ffForeachBin ∧ ForwardFailure ffDefBits ∧
     ForwardFailure ffDefRange ∧ ForwardFailure ffArgOrder ∧ ForwardFailure ffSliceBin :=
-  ⟨⟨dagWitness_sentence, rejected_of dagWitness_rejected⟩, ffForeachBin_fails, ffDefBits_fails, ffDefRange_fails,
+  ⟨⟨dagWitness_sentence, dagWitness_clean, rejected_of dagWitness_rejected⟩, ffForeachBin_fails, ffDefBits_fails, ffDefRange_fails,
     ffArgOrder_fails, ffSliceBin_fails⟩
 
 end C04L
